@@ -15,7 +15,7 @@ def selftest(tier):
 
 
 def obligations(tier, seed):
-    t = 450 if tier == 'quick' else 1200
+    t = 240 if tier == 'quick' else 1200
     shards = plan(skeletons.TAINT_TEMPLATES, tier, seed, len(skeletons.TAINT_TEMPLATES),
                   combos_quick=[(True, False, True), (True, True, True), (False, False, True)])
     return [
